@@ -753,6 +753,45 @@ __CPROVER_assigns(g_ev_id, g_ev_calls, g_link_calls, g_link_a, g_link_b, g_out_c
                             "  g_zpc.has = nondet_int() != 0; g_zpf.has = nondet_int() != 0; g_zac.has = nondet_int() != 0; g_zaf.has = nondet_int() != 0;", "dim0_step(in_e);"),
                   desc="compute_dim_0_pairs, one edge: if its endpoints lie in different components they are merged and (0, diameter) is streamed unless the diameter is 0; otherwise, when dim_max > 0, the edge becomes a column to reduce exactly when it has no zero apparent cofacet (asked for this edge, dimension 1)"))
 
+def barcodes_units(U):
+    """Persistent_cohomology::compute_barcodes: the driver loop over dimensions - what each round is given.  The three
+    workers are ghost stubs that record their arguments; the pivot map is a ghost size."""
+    DM = 3
+    G = ND + f"""
+typedef signed char dimension_t;
+#define DMX {DM}
+dimension_t dim_max;
+size_t g_map_size; unsigned g_map_decl; size_t g_reserved;
+unsigned g_od_calls; dimension_t g_od_last; unsigned g_d0_calls; unsigned g_cp_calls; dimension_t g_cp_last; unsigned g_cp_dirty; unsigned g_as_calls; dimension_t g_as_last; unsigned g_order_bad;
+size_t g_ncols;
+static void output_dim(dimension_t d) {{ if (d != (dimension_t)g_od_calls) g_order_bad++; g_od_calls++; g_od_last = d; }}
+static void compute_dim_0_pairs_stub(void) {{ if (g_od_calls != 1) g_order_bad++; g_d0_calls++; g_ncols = nondet_ulong(); }}
+/* compute_pairs(columns, pivot map, dim): must be given an EMPTY pivot map (pivots of one dimension only); fills it */
+static void compute_pairs_stub(dimension_t d) {{ if (g_map_size != 0) g_cp_dirty++; if (d != g_od_last || (dimension_t)(g_cp_calls + 1) != d) g_order_bad++; g_cp_calls++; g_cp_last = d; g_map_size = nondet_ulong(); }}
+static void assemble_stub(dimension_t d) {{ if (d != g_cp_last + 1 || d > dim_max) g_order_bad++; g_as_calls++; g_as_last = d; g_ncols = nondet_ulong(); }}
+"""
+    con = """
+__CPROVER_requires(dim_max >= 0 && dim_max <= DMX && g_od_calls == 0 && g_d0_calls == 0 && g_cp_calls == 0 && g_as_calls == 0 && g_cp_dirty == 0 && g_order_bad == 0)
+__CPROVER_ensures(g_od_calls == (unsigned)dim_max + 1 && g_d0_calls == 1 && g_cp_calls == (unsigned)dim_max && g_as_calls == (dim_max >= 1 ? (unsigned)dim_max - 1 : 0))
+__CPROVER_ensures(g_cp_dirty == 0)
+__CPROVER_ensures(g_order_bad == 0)
+__CPROVER_assigns(g_map_size, g_map_decl, g_reserved, g_od_calls, g_od_last, g_d0_calls, g_cp_calls, g_cp_last, g_cp_dirty, g_as_calls, g_as_last, g_order_bad, g_ncols)
+"""
+    fn = Fn(RP, r"void compute_barcodes\(OutDim&& output_dim, OutPair&& output_pair\)", "compute_barcodes", con,
+            sig_subs=[(r"\(OutDim&& output_dim, OutPair&& output_pair\)", "(void)")],
+            subs=[(r"std::vector<diameter_simplex_t> simplices, columns_to_reduce;", ""),
+                  (r"compute_dim_0_pairs\(simplices, columns_to_reduce, output_pair\);", "compute_dim_0_pairs_stub();"),
+                  (r"entry_hash_map pivot_column_index\(0, filt, filt\);", "g_map_size = 0; g_map_decl++;"),
+                  (r"pivot_column_index\.reserve\(columns_to_reduce\.size\(\)\);", "g_reserved = g_ncols;", 0),
+                  (r"pivot_column_index\.clear\(\);", "g_map_size = 0;", 0),
+                  (r"compute_pairs\(columns_to_reduce, pivot_column_index, (\w+), output_pair\);", r"compute_pairs_stub(\1);"),
+                  (r"assemble_columns_to_reduce\(simplices, columns_to_reduce, pivot_column_index,\s*([^;]*)\);", r"assemble_stub(\1);")],
+            canary=(r"if \(dim < dim_max\)", "if (dim <= dim_max)"))
+    U.append(Unit("reduction.compute_barcodes", "C11", [fn], enforce="compute_barcodes", globals_=G, unwind=DM + 2, route="B",
+                  bound=f"dim_max <= {DM} (the loop over dimensions is unwound); what the workers do is abstract", inputs=["dim_max"], replay=replay_by_native_search,
+                  harness=H("  dim_max = (dimension_t)nondet_int(); g_od_calls = 0; g_d0_calls = 0; g_cp_calls = 0; g_as_calls = 0; g_cp_dirty = 0; g_order_bad = 0; g_map_size = nondet_ulong();", "compute_barcodes();"),
+                  desc="compute_barcodes: dimension 0 first, then for dim = 1..dim_max: output_dim(dim), compute_pairs(dim) on a pivot map that is EMPTY at that moment (pivots of another dimension must never be visible: simplex indices are unique per dimension only), then assemble_columns_to_reduce(dim + 1) except after the last dimension"))
+
 def enumerator_units(U):
     """dense Simplex_coboundary_enumerator_::next(): filters the raw cofacets by the threshold.  next_raw (the
     enumeration itself) is a ghost stub that yields an arbitrary finite sequence of candidates."""
@@ -1017,6 +1056,7 @@ def units(tier):
     full_matrix_units(U)
     apparent_units(U)
     dim0_units(U)
+    barcodes_units(U)
     return U
 
 
